@@ -229,7 +229,14 @@ func c13tile(c *h.Ctx, t maptile.Tile, strictCorners bool, r *h.Rand) {
 	// centre maps back
 	ctr := t.Center()
 	if back := maptile.At(ctr, t.Z); back != t {
-		fail("At(Center(tile)) is not the tile", map[string]interface{}{"center": sv(ctr), "back": sv(back)})
+		key := ""
+		// the clamp constant 85.0511 is slightly inside the mercator limit 85.05112878: at high zoom the centres of the
+		// first/last few rows lie beyond it and are snapped to row 0 / the last row
+		last := uint32(1)<<uint(t.Z) - 1
+		if math.Abs(ctr[1]) > 85.0511 && back.X == t.X && back.Z == t.Z && ((ctr[1] > 0 && back.Y == 0) || (ctr[1] < 0 && back.Y == last)) {
+			key = "C13/center-beyond-clamp-latitude"
+		}
+		c.Fail(key, "At(Center(tile)) is not the tile", map[string]interface{}{"tile": sv(t), "center": sv(ctr), "back": sv(back)})
 	}
 	c.Eval()
 	// corners
@@ -312,6 +319,11 @@ func randTile(r *h.Rand, maxZ int) maptile.Tile {
 		t.Y = 0
 	case 3:
 		t.Y = uint32(m - 1)
+	case 4: // the first / last few rows (beyond the clamp latitude at high zoom)
+		t.Y = uint32(r.Uint64() % 200 % m)
+		if r.Bool() {
+			t.Y = uint32(m-1) - t.Y
+		}
 	}
 	return t
 }
